@@ -330,6 +330,16 @@ class SimpleCorrelator(AbstractCorrelator):
             directory, name + '_delivery_segment_store.json'
         )  # ref_num: (stored_at, {seq_num: segment_text})
 
+    def last_sequence_num(self) -> int:
+        '''
+        Returns the highest SMPP sequence number among the requests and SubmitSm messages this
+        correlator still knows (0 if there are none), e.g. those loaded from persisted files.
+        '''
+        sequence_nums = [int(key) for key in self._store.keys()]
+        sequence_nums.extend(int(key) for key in self._segment_store.keys())
+        sequence_nums.extend(item[1].sequence_num for item in self._delivery_store.values())
+        return max(sequence_nums, default=0)
+
     def get_cumulated_status(self, ref_num: int) -> int:
         ref_key: str = str(ref_num)
         segment_status: SegmentStatus = self._segment_status_store[ref_key]
